@@ -239,14 +239,45 @@ func checkWindows(t *rapid.T, seq []string, model []srv, g, W int, ctx string) {
 	}
 }
 
+// lightWriter is a reusable minimal ResponseWriter (a recorder per selection dominates the run
+// time of rotations with hundreds of thousands of selections).
+type lightWriter struct {
+	h    http.Header
+	code int
+}
+
+func (w *lightWriter) Header() http.Header { return w.h }
+func (w *lightWriter) WriteHeader(c int) {
+	if w.code == 0 {
+		w.code = c
+	}
+}
+func (w *lightWriter) Write(b []byte) (int, error) {
+	if w.code == 0 {
+		w.code = 200
+	}
+	return len(b), nil
+}
+func (w *lightWriter) reset() {
+	for k := range w.h {
+		delete(w.h, k)
+	}
+	w.code = 0
+}
+func (w *lightWriter) status() int {
+	if w.code == 0 {
+		return 200
+	}
+	return w.code
+}
+
 func TestC01_Windows(t *testing.T) {
 	rapid.Check(t, func(t *rapid.T) {
-		var seen []string
-		var seenMu sync.Mutex
+		var lastSeen string
+		var nSeen int
 		next := http.HandlerFunc(func(w http.ResponseWriter, r *http.Request) {
-			seenMu.Lock()
-			seen = append(seen, r.URL.Scheme+"://"+r.URL.Host)
-			seenMu.Unlock()
+			lastSeen = r.URL.Scheme + "://" + r.URL.Host
+			nSeen++
 		})
 		// a share of the balancers has sticky sessions switched on and every request carries an
 		// affinity cookie that cannot be used (undecodable, or naming a non-member): such requests
@@ -264,25 +295,26 @@ func TestC01_Windows(t *testing.T) {
 			sum += s.w
 			g = gcd(g, s.w)
 		}
+		req := httptest.NewRequest("GET", "http://client/x", nil)
+		if badCookie != "" {
+			req.Header.Set("Cookie", badCookie)
+		}
+		lw := &lightWriter{h: http.Header{}}
 		sel := func() (string, bool) {
 			if viaHTTP {
-				n := len(seen)
-				rec := httptest.NewRecorder()
-				req := httptest.NewRequest("GET", "http://client/x", nil)
-				if badCookie != "" {
-					req.Header.Set("Cookie", badCookie)
-				}
-				rr.ServeHTTP(rec, req)
-				if len(seen) == n {
-					if rec.Code < 500 {
-						t.Fatalf("no server selected but status %d (want an error status)", rec.Code)
+				n := nSeen
+				lw.reset()
+				rr.ServeHTTP(lw, req) // the balancer works on a shallow copy of the request
+				if nSeen == n {
+					if lw.status() < 500 {
+						t.Fatalf("no server selected but status %d (want an error status)", lw.status())
 					}
 					return "", false
 				}
-				if len(seen) != n+1 {
-					t.Fatalf("handler invoked %d times for one request", len(seen)-n)
+				if nSeen != n+1 {
+					t.Fatalf("handler invoked %d times for one request", nSeen-n)
 				}
-				return seen[n], true
+				return lastSeen, true
 			}
 			u, err := rr.NextServer()
 			if err != nil {
@@ -340,6 +372,7 @@ func TestC01_Windows(t *testing.T) {
 			vstat.Case(sig, true, []string{"huge-rotation"}, nil)
 			return
 		}
+		refusedCalls := 0
 		offset := rapid.IntRange(0, 2*W).Draw(t, "offset")
 		for i := 0; i < offset; i++ {
 			if _, ok := sel(); !ok {
@@ -348,7 +381,29 @@ func TestC01_Windows(t *testing.T) {
 		}
 		M := 2*W + rapid.IntRange(0, W).Draw(t, "extra")
 		seq := make([]string, 0, M)
+		// administration calls that are refused leave the pool, and with it the rotation, as it is
+		refusedAt := map[int]bool{}
+		if rapid.IntRange(0, 3).Draw(t, "refusedAdminCalls") == 0 && M <= 5000 {
+			for k := rapid.IntRange(1, 3).Draw(t, "nRefused"); k > 0; k-- {
+				refusedAt[rapid.IntRange(0, M-1).Draw(t, "refusedAt")] = true
+			}
+		}
 		for i := 0; i < M; i++ {
+			if refusedAt[i] {
+				var err error
+				switch rapid.IntRange(0, 2).Draw(t, "refusedKind") {
+				case 0:
+					err = rr.RemoveServer(mustURL("http://never-added"))
+				case 1:
+					err = rr.UpsertServer(nil)
+				default:
+					err = rr.UpsertServer(mustURL("http://refused-newcomer"), roundrobin.Weight(-1))
+				}
+				if err == nil {
+					t.Fatalf("an administration call that must be refused succeeded")
+				}
+				refusedCalls++
+			}
 			s, ok := sel()
 			if !ok {
 				t.Fatalf("selection %d failed on a pool with positive weights %v", i, model)
@@ -387,6 +442,9 @@ func TestC01_Windows(t *testing.T) {
 		}
 		if len(model) > 256 {
 			cl = append(cl, "more-than-256-members")
+		}
+		if refusedCalls > 0 {
+			cl = append(cl, "refused-admin-calls-inside-the-window")
 		}
 		if badCookie != "" {
 			cl = append(cl, "sticky-on-with-unusable-cookie")
